@@ -24,3 +24,19 @@ Theorem C06_lex_terminates : forall text file,
 Proof. exact lex_terminates. Qed.
 Print Assumptions C06_lex_terminates.
 ''')
+mk("C18","structurally malformed input is always rejected","RejectExamples"," UnicodeTables PyRepr Lexer RejectProofs",
+'''(* an error item cannot be skipped: asking for one more token raises ParseError at exactly its position *)
+Theorem C18_deliver_error_item : forall (P: Type) (s: pstate P) msg p f r,
+  raw P s = PErr P msg p f :: r -> deliver1 P s = Err (L_coord P (mkCoord P f p)) msg.
+Proof. exact deliver_error_item. Qed.
+Print Assumptions C18_deliver_error_item.
+
+(* a character that starts no token becomes an "Illegal character" error item at its line and column *)
+Theorem C18_illegal_char_reported : forall n0 st c rest,
+  choose_best n0 (c :: rest) = None ->
+  match_token n0 st (c :: rest) =
+    ([RErr (msg_illegal c) (l_lineno st) (l_pos st - l_line_start st + 1)%N (l_file st)],
+     mkLex (l_pos st + 1)%N (l_line_start st) (l_lineno st) (l_file st), rest).
+Proof. exact illegal_char_reported. Qed.
+Print Assumptions C18_illegal_char_reported.
+''')
